@@ -253,6 +253,7 @@ func TestVerifC08(t *testing.T) {
 			c.Steps = append(c.Steps, advStep{At: c.StopAt + time.Duration(i%2), Kind: "watchclose"})
 			sortSteps(c.Steps)
 		}
+		c.Dynamic = i%5 == 2 && c.FwdLat == 0
 		switch i % 10 {
 		case 3, 4: // the interface is not forwarding at all
 			c.Fwd = false
